@@ -217,9 +217,19 @@ def check_ref_from_bytes(ctx, F, hty):
               why="facts at the site: %s - the declared total size is not compared with the slice" % [G.show(f) for f in facts])
     # failing edge returns InvalidReportedTotalSize
     ex = CH.exits(A)
-    errs = [e for e in ex if e.kind == "Err"]
+    def cannot_be_taken(e):
+        # an exit behind a test no input satisfies (the overflow arm of `checked_add` on operands that are bounded by their types)
+        others = [f for f in e.facts if f not in e.own]
+        for f in e.own:
+            nf = G.negate(f)
+            if nf[0] == "cmp" and G.entails(others, nf) is not None:
+                return True
+        return False
+    errs = [e for e in ex if e.kind == "Err" and not cannot_be_taken(e)]
+    dead = [e for e in ex if e.kind == "Err" and cannot_be_taken(e)]
     oks = [e for e in ex if e.kind == "Ok"]
-    good = len(errs) == 1 and errs[0].variant == "InvalidReportedTotalSize" and len(oks) == 1 and CH.precedes(errs[0], oks[0])
+    good = len(errs) == 1 and errs[0].variant == "InvalidReportedTotalSize" and len(oks) == 1 and CH.precedes(errs[0], oks[0]) and \
+        all(e.variant == "InvalidReportedTotalSize" for e in dead)
     ctx.check(good, "B3", lab + ":error",
               "the only error exit of ref_from_bytes is InvalidReportedTotalSize, taken exactly when the size test fails",
               A.site(), how="exits %s" % ex, why="exits %s" % ex)
